@@ -29,6 +29,9 @@ type c07Case struct {
 	// chain
 	Len   int  `json:"len,omitempty"`
 	Cycle bool `json:"cycle,omitempty"`
+	// Names: how the layouts of a chain are named: "" = l1, l2 ...; num = 1, 2 ... (YAML reads the
+	// front-matter value as a number); bool = the first layout is called "true"
+	Names string `json:"names,omitempty"`
 	// keys
 	KeyIn string `json:"key_in,omitempty"` // subset letters of p(age fm) a b f(ill)
 	// content: how each link of the chain page -> l1 -> l2 ... uses `content`
@@ -168,16 +171,25 @@ func (c *c07Case) Run(ctx *core.Ctx) {
 		trig = fmt.Sprintf("dir=%s/p=%s:%s/a=%s/b=%s/base=%s/twin=%s", c.PageDir, c.PageLay, c.PageSrc, c.ALay, c.BLay, c.Base, c.Twin)
 	case "chain":
 		// straight chain page -> l1 -> l2 ... -> l(Len-1); Cycle: last points back to l1
-		files[page] = "---\nlayout: l1\n---\n" + `<i id="page">P</i>`
+		lname := func(i int) string {
+			switch {
+			case c.Names == "num":
+				return fmt.Sprint(i)
+			case c.Names == "bool" && i == 1:
+				return "true"
+			}
+			return fmt.Sprintf("l%d", i)
+		}
+		files[page] = "---\nlayout: " + lname(1) + "\n---\n" + `<i id="page">P</i>`
 		for i := 1; i < c.Len; i++ {
-			next := fmt.Sprintf("l%d", i+1)
+			next := lname(i + 1)
 			if i == c.Len-1 {
 				next = "none"
 				if c.Cycle {
-					next = "l1"
+					next = lname(1)
 				}
 			}
-			files[fmt.Sprintf("layouts/l%d.vuego", i)] = c07Layout(fmt.Sprintf("l%d", i), next, "")
+			files["layouts/"+lname(i)+".vuego"] = c07Layout(fmt.Sprintf("l%d", i), next, "")
 		}
 		if c.Len == 1 {
 			files[page] = `<i id="page">P</i>`
@@ -350,7 +362,7 @@ func init() {
 		ID:        "C07",
 		Level:     "exploration",
 		CPUBudget: 20,
-		Rule: "all layout graphs over {page (root or pages/), layouts/a, layouts/b, layouts/base (absent or present), pages/a (relative twin)} where every file's layout key ranges over {none, a, b, base, self, missing} and the page's is given by front-matter or Fill, on engines built with NewFS(fs), New(WithFS(fs)) and NewFS(decoy, WithFS(fs)) (decoy differing in the presence of layouts/base.vuego); straight chains and cycles of chosen lengths incl. 98..101; every subset of {page fm, a fm, b fm, Fill} defining key k; every chain of 1..3 layouts where each link uses `content` in one of 7 ways (wraps it, passes it bare, hides it behind a false / true v-if, ignores it, uses it twice, prints it escaped) x page body {one element, nothing, two elements}. " +
+		Rule: "all layout graphs over {page (root or pages/), layouts/a, layouts/b, layouts/base (absent or present), pages/a (relative twin)} where every file's layout key ranges over {none, a, b, base, self, missing} and the page's is given by front-matter or Fill, on engines built with NewFS(fs), New(WithFS(fs)) and NewFS(decoy, WithFS(fs)) (decoy differing in the presence of layouts/base.vuego); straight chains and cycles of chosen lengths incl. 98..101, also with layouts named by numbers and booleans (YAML types the front-matter value); every subset of {page fm, a fm, b fm, Fill} defining key k; every chain of 1..3 layouts where each link uses `content` in one of 7 ways (wraps it, passes it bare, hides it behind a false / true v-if, ignores it, uses it twice, prints it escaped) x page body {one element, nothing, two elements}. " +
 			"oracle: reference resolver (relative-then-layouts/, default rule, limit 100) gives the nesting order with each marker once, or error with nothing written. non-trivial = all",
 		Bounds:      map[string]string{"quick": "all graphs over <=5 files; chains 1,2,3,5,98,99,100,101,150; cycles 1,2,3,7", "thorough": "same plus chains up to 300"},
 		Assumptions: []string{"a chain of exactly 100 links is accepted either way"},
@@ -394,6 +406,12 @@ func init() {
 			}
 			for _, n := range []int{1, 2, 3, 7} {
 				emit(&c07Case{Part: "chain", Len: n, Cycle: true})
+			}
+			for _, names := range []string{"num", "bool"} {
+				for _, n := range []int{2, 3, 5} {
+					emit(&c07Case{Part: "chain", Len: n, Names: names})
+				}
+				emit(&c07Case{Part: "chain", Len: 3, Cycle: true, Names: names})
 			}
 			forms := []string{"wrap", "bare", "gate", "open", "drop", "twice", "text"}
 			tokenStrings(forms, 3, func(tok []int) {
